@@ -153,7 +153,7 @@ Example stop_waits_nonvacuous :
   exists s, lrun linit [LTick; LStopCall; LStopCall; LStopCas 1; LStopCas 0; LCleanupDone;
                         LStopClose 1; LSeeStop; LStopReturn 0; LStopReturn 1] = Some s /\
             nth_error (lcallers s) 0 = Some SReturned.
-Proof. eexists. split; reflexivity. Qed.
+Proof. eexists. vm_compute. split; reflexivity. Qed.
 
 (* ------------------------------------------------------------------------------------- *)
 (* No wedge: from every reachable state, every Stop call that has not returned yet can be
@@ -196,7 +196,8 @@ Lemma close_from_waiting s i :
                  nth_error (lcallers s') i = Some SWaiting /\ lstopch s' = true.
 Proof.
   intros Hinv Hi. destruct (lstopch s) eqn:Hs.
-  - exists [], s. repeat split; auto.
+  - exists [], s. split; [constructor|]. split; [reflexivity|]. split; [exact Hinv|].
+    split; [exact Hi | exact Hs].
   - destruct Hinv as (H1 & H2 & H3 & H4 & H5 & H6).
     assert (Hst : lstopped s = true).
     { destruct (lstopped s) eqn:Hst; [reflexivity|]. specialize (H6 eq_refl i _ Hi). discriminate. }
@@ -223,7 +224,7 @@ Proof.
             exists s1, lstep s0 (LStopClose i) = Some s1 /\ LInv s1 /\
                        nth_error (lcallers s1) i = Some SWaiting).
   { intros s0 Hinv0 Hi0. eexists. split; [cbn [lstep]; rewrite Hi0; reflexivity|]. split.
-    - eapply lstep_LInv; [exact Hinv0|]. cbn [lstep]. rewrite Hi0. reflexivity.
+    - apply (lstep_LInv s0 (LStopClose i)); [exact Hinv0|]. cbn [lstep]. rewrite Hi0. reflexivity.
     - cbn [lcallers]. eapply nth_set_nth_eq. exact Hi0. }
   destruct pc.
   - (* SCalled *)
@@ -241,7 +242,7 @@ Proof.
   - (* SClosing *)
     destruct (Hclose s Hinv Hi) as (s1 & Hs1 & Hinv1 & Hi1).
     exists [LStopClose i], s1. split; [repeat constructor|]. cbn [lrun]. rewrite Hs1. auto.
-  - exists [], s. repeat split; auto.
+  - exists [], s. split; [constructor|]. split; [reflexivity|]. split; [exact Hinv | exact Hi].
   - congruence.
 Qed.
 
